@@ -179,6 +179,33 @@ theorem cmpItems_laws : ∀ xs : List (String × PValue), (∀ p ∈ xs, Laws va
         simp only [cmpItems, bne_iff_ne, ne_eq, T3] at *
         split <;> split <;> split <;> (try split) <;> (try split) <;> (try split) <;> omega
 
+/-- it is enough to establish the laws against operands of the same type: different types are decided by `rank` -/
+theorem laws_of_sameRank (a : PValue)
+    (hrange : ∀ b, rank b = rank a → -1 ≤ valueCompare a b ∧ valueCompare a b ≤ 1)
+    (hrefl : valueCompare a a = 0)
+    (hanti : ∀ b, rank b = rank a → valueCompare a b = - valueCompare b a)
+    (ht3 : ∀ b d, rank b = rank a → rank d = rank a →
+      T3 (valueCompare a b) (valueCompare b d) (valueCompare a d)) : Laws valueCompare a := by
+  refine ⟨fun b => ?_, hrefl, fun b => ?_, fun b d => ?_⟩
+  · rcases Nat.lt_trichotomy (rank a) (rank b) with h | h | h
+    · rw [cmp_rank_lt a b h]; omega
+    · exact hrange b h.symm
+    · rw [cmp_rank_gt a b h]; omega
+  · rcases Nat.lt_trichotomy (rank a) (rank b) with h | h | h
+    · rw [cmp_rank_lt a b h, cmp_rank_gt b a h]
+    · exact hanti b h.symm
+    · rw [cmp_rank_gt a b h, cmp_rank_lt b a h]; omega
+  · rcases Nat.lt_trichotomy (rank a) (rank b) with h | h | h
+    · rcases Nat.lt_trichotomy (rank b) (rank d) with h' | h' | h'
+      · rw [cmp_rank_lt a b h, cmp_rank_lt b d h', cmp_rank_lt a d (by omega)]; simp [T3]
+      · rw [cmp_rank_lt a b h, cmp_rank_lt a d (by omega)]; simp [T3]
+      · rw [cmp_rank_lt a b h, cmp_rank_gt b d h']; simp [T3]
+    · rcases Nat.lt_trichotomy (rank b) (rank d) with h' | h' | h'
+      · rw [cmp_rank_lt b d h', cmp_rank_lt a d (by omega)]; simp [T3]
+      · exact ht3 b d h.symm (by omega)
+      · rw [cmp_rank_gt b d h']; simp [T3]
+    · rw [cmp_rank_gt a b h]; simp [T3]
+
 /-- every value satisfies every law against arbitrary values -/
 theorem laws : ∀ a : PValue, Laws valueCompare a
   | .null => by
@@ -187,13 +214,231 @@ theorem laws : ∀ a : PValue, Laws valueCompare a
     · simp [valueCompare]
     · cases b <;> simp [valueCompare]
     · cases b <;> cases d <;> simp [valueCompare, T3]
-  | .bool _ => sorry
-  | .num _ => sorry
-  | .str _ => sorry
-  | .dt _ => sorry
-  | .arr xs => sorry
-  | .obj _ => sorry
-  | .fn _ => sorry
-  | .regex _ => sorry
+  | .bool x => by
+    refine laws_of_sameRank _ (fun b h => ?_) ?_ (fun b h => ?_) (fun b d h h' => ?_)
+    · cases b <;> simp [rank] at h; simp only [valueCompare]; exact tri_range _ _
+    · cases x <;> simp [valueCompare, tri]
+    · cases b <;> simp [rank] at h; simp only [valueCompare]; exact boolTri_antisymm _ _
+    · cases b <;> simp [rank] at h; cases d <;> simp [rank] at h'; simp only [valueCompare]; exact boolTri_t3 _ _ _
+  | .num x => by
+    refine laws_of_sameRank _ (fun b h => ?_) ?_ (fun b h => ?_) (fun b d h h' => ?_)
+    · cases b <;> simp [rank] at h; simp only [valueCompare]; exact tri_range _ _
+    · simp [valueCompare, tri, Rat.lt_irrefl]
+    · cases b <;> simp [rank] at h; simp only [valueCompare]; exact ratTri_antisymm _ _
+    · cases b <;> simp [rank] at h; cases d <;> simp [rank] at h'; simp only [valueCompare]; exact ratTri_t3 _ _ _
+  | .dt x => by
+    refine laws_of_sameRank _ (fun b h => ?_) ?_ (fun b h => ?_) (fun b d h h' => ?_)
+    · cases b <;> simp [rank] at h; simp only [valueCompare]; exact tri_range _ _
+    · simp [valueCompare, tri]
+    · cases b <;> simp [rank] at h; simp only [valueCompare]; exact intTri_antisymm _ _
+    · cases b <;> simp [rank] at h; cases d <;> simp [rank] at h'; simp only [valueCompare]; exact intTri_t3 _ _ _
+  | .str x => by
+    have l := strCompare_laws x
+    refine laws_of_sameRank _ (fun b h => ?_) ?_ (fun b h => ?_) (fun b d h h' => ?_)
+    · cases b <;> simp [rank] at h; simp only [valueCompare]; exact l.range _
+    · simp only [valueCompare]; exact l.refl
+    · cases b <;> simp [rank] at h; simp only [valueCompare]; exact l.antisymm _
+    · cases b <;> simp [rank] at h; cases d <;> simp [rank] at h'; simp only [valueCompare]; exact l.t3 _ _
+  | .fn x => by
+    refine laws_of_sameRank _ (fun b h => ?_) ?_ (fun b h => ?_) (fun b d h h' => ?_)
+    · cases b <;> simp [rank] at h; simp [valueCompare, typeName]; decide
+    · simp [valueCompare, typeName]; decide
+    · cases b <;> simp [rank] at h; simp only [valueCompare, typeName]; decide
+    · cases b <;> simp [rank] at h; cases d <;> simp [rank] at h'; simp only [valueCompare, typeName, T3]; decide
+  | .regex x => by
+    refine laws_of_sameRank _ (fun b h => ?_) ?_ (fun b h => ?_) (fun b d h h' => ?_)
+    · cases b <;> simp [rank] at h; simp [valueCompare, typeName]; decide
+    · simp [valueCompare, typeName]; decide
+    · cases b <;> simp [rank] at h; simp only [valueCompare, typeName]; decide
+    · cases b <;> simp [rank] at h; cases d <;> simp [rank] at h'; simp only [valueCompare, typeName, T3]; decide
+  | .arr xs => by
+    have l := cmpList_laws xs (fun x _ => laws x)
+    refine laws_of_sameRank _ (fun b h => ?_) ?_ (fun b h => ?_) (fun b d h h' => ?_)
+    · cases b <;> simp [rank] at h; simp only [valueCompare]; exact l.range _
+    · simp only [valueCompare]; exact l.refl
+    · cases b <;> simp [rank] at h; simp only [valueCompare]; exact l.antisymm _
+    · cases b <;> simp [rank] at h; cases d <;> simp [rank] at h'; simp only [valueCompare]; exact l.t3 _ _
+  | .obj kvs => by
+    have l := cmpItems_laws (sortItems kvs) (fun p hp =>
+      have _hm : p ∈ kvs := (sortItems_perm kvs).mem_iff.mp hp
+      laws p.2)
+    refine laws_of_sameRank _ (fun b h => ?_) ?_ (fun b h => ?_) (fun b d h h' => ?_)
+    · cases b <;> simp [rank] at h; simp only [valueCompare]; exact l.range _
+    · simp only [valueCompare]; exact l.refl
+    · cases b <;> simp [rank] at h; simp only [valueCompare]; exact l.antisymm _
+    · cases b <;> simp [rank] at h; cases d <;> simp [rank] at h'; simp only [valueCompare]; exact l.t3 _ _
+termination_by a => sizeOf a
+decreasing_by
+  · simp_wf
+    have := List.sizeOf_lt_of_mem ‹_ ∈ xs›
+    omega
+  · simp_wf
+    have h1 := List.sizeOf_lt_of_mem _hm
+    have h2 : sizeOf p.2 < sizeOf p := by cases p; simp_wf; omega
+    omega
+
+/-! ## total preorders and the stable insertion sort -/
+
+/-- a comparator that is a total preorder: exactly the three laws of the property -/
+structure IsPre {α : Type} (c : α → α → Int) : Prop where
+  refl : ∀ a, c a a = 0
+  antisymm : ∀ a b, c a b = - c b a
+  trans : ∀ a b d, c a b ≤ 0 → c b d ≤ 0 → c a d ≤ 0
+
+namespace IsPre
+variable {α : Type} {c : α → α → Int}
+
+theorem lt_le (h : IsPre c) {a b d : α} (h1 : c a b < 0) (h2 : c b d ≤ 0) : c a d < 0 := by
+  have := h.antisymm a d; have := h.antisymm a b
+  have := h.trans b d a h2
+  omega
+
+theorem le_lt (h : IsPre c) {a b d : α} (h1 : c a b ≤ 0) (h2 : c b d < 0) : c a d < 0 := by
+  have := h.antisymm a d; have := h.antisymm b d
+  have := h.trans d a b
+  omega
+
+theorem eq_eq (h : IsPre c) {a b d : α} (h1 : c a b = 0) (h2 : c b d = 0) : c a d = 0 := by
+  have := h.antisymm a d; have := h.antisymm a b; have := h.antisymm b d
+  have := h.trans a b d; have := h.trans d b a
+  omega
+
+theorem flip (h : IsPre c) : IsPre (fun a b => c b a) :=
+  ⟨fun a => h.refl a, fun a b => h.antisymm b a, fun a b d h1 h2 => h.trans d b a h2 h1⟩
+
+theorem comap {β : Type} (h : IsPre c) (g : β → α) : IsPre (fun a b => c (g a) (g b)) :=
+  ⟨fun _ => h.refl _, fun _ _ => h.antisymm _ _, fun _ _ _ => h.trans _ _ _⟩
+
+/-- "first comparator decides unless it says equal" -/
+theorem lex {c₂ : α → α → Int} (h : IsPre c) (h₂ : IsPre c₂) :
+    IsPre (fun a b => if c a b != 0 then c a b else c₂ a b) := by
+  refine ⟨fun x => by simp [h.refl, h₂.refl], fun a b => ?_, fun a b d => ?_⟩
+  · have := h.antisymm a b; have := h₂.antisymm a b
+    simp only [bne_iff_ne, ne_eq]; split <;> split <;> omega
+  · have t1 := h.lt_le (a := a) (b := b) (d := d); have t2 := h.le_lt (a := a) (b := b) (d := d)
+    have t3 := h.eq_eq (a := a) (b := b) (d := d)
+    have := h₂.trans a b d
+    simp only [bne_iff_ne, ne_eq]; split <;> split <;> split <;> omega
+end IsPre
+
+theorem valueCompare_isPre : IsPre valueCompare := by
+  refine ⟨fun a => (laws a).refl, fun a b => (laws a).antisymm b, fun a b d h1 h2 => ?_⟩
+  have ⟨t1, t2, t3⟩ := (laws a).t3 b d
+  have := (laws a).range b; have := (laws b).range d
+  omega
+
+section Sorting
+variable {α : Type} {c : α → α → Int}
+
+/-- the `<` that `functools.cmp_to_key(c)` gives the sort -/
+abbrev ltOf (c : α → α → Int) : α → α → Bool := fun a b => decide (c a b < 0)
+
+/-- ordered: no element is greater than a later one -/
+abbrev Sorted (c : α → α → Int) (l : List α) : Prop := l.Pairwise (fun x y => c x y ≤ 0)
+
+/-- the class of `a`: the elements that compare equal to it -/
+abbrev eqv (c : α → α → Int) (a : α) : α → Bool := fun x => c x a == 0
+
+theorem insertBy_sorted (h : IsPre c) (x : α) : ∀ ys, Sorted c ys → Sorted c (insertBy (ltOf c) x ys)
+  | [], _ => by simp [insertBy]
+  | y :: ys, hs => by
+    have ⟨hy, hys⟩ := List.pairwise_cons.mp hs
+    unfold insertBy
+    by_cases hxy : c x y < 0
+    · simp only [ltOf, hxy, decide_true, if_true]
+      refine List.pairwise_cons.mpr ⟨fun z hz => ?_, hs⟩
+      rcases List.mem_cons.mp hz with rfl | hz
+      · omega
+      · exact Int.le_of_lt (h.lt_le hxy (hy z hz))
+    · simp only [ltOf, hxy, decide_false, Bool.false_eq_true, if_false]
+      refine List.pairwise_cons.mpr ⟨fun z hz => ?_, insertBy_sorted h x ys hys⟩
+      rcases List.mem_cons.mp ((insertBy_perm _ x ys).mem_iff.mp hz) with rfl | hz
+      · have := h.antisymm y z; omega
+      · exact hy z hz
+
+theorem foldl_insertBy_sorted (h : IsPre c) : ∀ (xs acc : List α), Sorted c acc →
+    Sorted c (xs.foldl (fun acc x => insertBy (ltOf c) x acc) acc)
+  | [], _, ha => ha
+  | x :: xs, acc, ha => foldl_insertBy_sorted h xs _ (insertBy_sorted h x acc ha)
+
+theorem insertBy_filter (h : IsPre c) (a x : α) : ∀ ys, Sorted c ys →
+    (insertBy (ltOf c) x ys).filter (eqv c a) = ys.filter (eqv c a) ++ [x].filter (eqv c a)
+  | [], _ => by simp [insertBy]
+  | y :: ys, hs => by
+    have ⟨hy, hys⟩ := List.pairwise_cons.mp hs
+    unfold insertBy
+    by_cases hxy : c x y < 0
+    · simp only [ltOf, hxy, decide_true, if_true]
+      by_cases hxa : c x a = 0
+      · have hnil : (y :: ys).filter (eqv c a) = [] := by
+          refine List.filter_eq_nil_iff.mpr (fun z hz hza => ?_)
+          have hxz : c x z < 0 := by
+            rcases List.mem_cons.mp hz with rfl | hz
+            · exact hxy
+            · exact h.lt_le hxy (hy z hz)
+          have hza : c z a = 0 := by simpa using hza
+          have hax : c a x = 0 := by have := h.antisymm a x; omega
+          have := h.eq_eq hza hax
+          have := h.antisymm x z
+          omega
+        rw [List.filter_cons, hnil]; simp [hxa]
+      · simp [List.filter_cons, hxa]
+    · simp only [ltOf, hxy, decide_false, Bool.false_eq_true, if_false]
+      rw [List.filter_cons, insertBy_filter h a x ys hys, List.filter_cons (x := y)]
+      split <;> simp
+
+theorem foldl_insertBy_filter (h : IsPre c) (a : α) : ∀ (xs acc : List α), Sorted c acc →
+    (xs.foldl (fun acc x => insertBy (ltOf c) x acc) acc).filter (eqv c a) = acc.filter (eqv c a) ++ xs.filter (eqv c a)
+  | [], _, _ => by simp
+  | x :: xs, acc, ha => by
+    rw [List.foldl_cons, foldl_insertBy_filter h a xs _ (insertBy_sorted h x acc ha), insertBy_filter h a x acc ha,
+      List.filter_cons (x := x)]
+    split <;> simp [*]
+
+theorem sortBy_sorted (h : IsPre c) (xs : List α) : Sorted c (sortBy (ltOf c) xs) :=
+  foldl_insertBy_sorted h xs [] List.Pairwise.nil
+
+theorem sortBy_stable (h : IsPre c) (xs : List α) (a : α) :
+    (sortBy (ltOf c) xs).filter (eqv c a) = xs.filter (eqv c a) := by
+  simpa [sortBy] using foldl_insertBy_filter h a xs [] List.Pairwise.nil
+
+/-- an ordered list is determined by its equivalence classes taken in order of appearance -/
+theorem sorted_stable_unique (h : IsPre c) : ∀ ys zs : List α, Sorted c ys → Sorted c zs →
+    (∀ a, ys.filter (eqv c a) = zs.filter (eqv c a)) → ys = zs
+  | [], [], _, _, _ => rfl
+  | [], z :: zs, _, _, hf => by have := hf z; simp [h.refl] at this
+  | y :: ys, [], _, _, hf => by have := hf y; simp [h.refl] at this
+  | y :: ys, z :: zs, hy, hz, hf => by
+    have ⟨hy1, hy2⟩ := List.pairwise_cons.mp hy
+    have ⟨hz1, hz2⟩ := List.pairwise_cons.mp hz
+    -- membership is the same on both sides
+    have mem_l : ∀ w, w ∈ z :: zs → w ∈ y :: ys := fun w hw => by
+      have : w ∈ (z :: zs).filter (eqv c w) := List.mem_filter.mpr ⟨hw, by simp [h.refl]⟩
+      rw [← hf w] at this; exact (List.mem_filter.mp this).1
+    have mem_r : ∀ w, w ∈ y :: ys → w ∈ z :: zs := fun w hw => by
+      have : w ∈ (y :: ys).filter (eqv c w) := List.mem_filter.mpr ⟨hw, by simp [h.refl]⟩
+      rw [hf w] at this; exact (List.mem_filter.mp this).1
+    have hyz : c y z ≤ 0 := by
+      rcases List.mem_cons.mp (mem_l z (by simp)) with e | hm
+      · rw [e, h.refl]; omega
+      · exact hy1 z hm
+    have hzy : c z y ≤ 0 := by
+      rcases List.mem_cons.mp (mem_r y (by simp)) with e | hm
+      · rw [e, h.refl]; omega
+      · exact hz1 y hm
+    have hzy0 : c z y = 0 := by have := h.antisymm y z; omega
+    have hhead := hf y
+    simp only [List.filter_cons, eqv, h.refl, hzy0, beq_self_eq_true, if_true] at hhead
+    have hyz_eq : y = z := (List.cons.inj hhead).1
+    subst hyz_eq
+    have htail : ∀ a, ys.filter (eqv c a) = zs.filter (eqv c a) := fun a => by
+      have := hf a
+      simp only [List.filter_cons] at this
+      split at this
+      · exact (List.cons.inj this).2
+      · exact this
+    rw [sorted_stable_unique h ys zs hy2 hz2 htail]
+
+end Sorting
 
 end C11
